@@ -23,6 +23,21 @@ fn main() {
     if tier == "--replay" {
         std::process::exit(replay::run(args.get(3).map(|s| s.as_str()).unwrap_or("")));
     }
+    if id == "RUN" {
+        // sslverif RUN <program text>: parse and run one program with the stdlib (debugging aid)
+        let text = tier.to_string();
+        let code = core::on_big_stack(move || {
+            let interp = simplesl::Interpreter::with_stdlib();
+            match core::guard(|| simplesl::Code::parse(&interp, &text).map(|c| c.exec())) {
+                Ok(Ok(Ok(v))) => println!("value {} :: {}", val::canon(&v), ty::Ty::from_impl(&simplesl::variable::Typed::as_type(&v)).print()),
+                Ok(Ok(Err(e))) => println!("exec error {e:?}"),
+                Ok(Err(e)) => println!("rejected {e:?}"),
+                Err(_) => println!("panic / exhausted"),
+            }
+            0
+        });
+        std::process::exit(code);
+    }
     if id == "GRIDPOINT" {
         // sslverif GRIDPOINT <construct name> <type> <type> ...: one point of the operand grid (debugging aid)
         let cs = opgrid::constructs(true);
